@@ -4,6 +4,8 @@ CONSTANTS
   NP = 2
   MaxLen = 4
   MaxBad = 1
+  MaxFault = 1
+  AllowReuse = TRUE
   KeepOnFailure = FALSE
   GenLen = 4
 INVARIANTS Emit
